@@ -11,6 +11,7 @@ import Vicut.Model.Files
 import Vicut.Model.Text
 import Vicut.Model.Field
 import Vicut.Model.Undo
+import Vicut.Model.Search
 
 open Lean Vicut
 
@@ -192,6 +193,23 @@ def opUndoMachine (req : Json) : Json :=
     (s', acc.2 ++ [ustateJson s'])) (s0, [])
   Json.mkObj [("states", Json.arr states.toArray)]
 
+/-- `{"op":"search","gs":[..],"starts":[byte offsets],"cursor":n,"cmds":[["search",fwd,count]|["next",c]|["prev",c]]}`:
+the cursor (grapheme index) after every command of the chain. -/
+def opSearch (req : Json) : Json :=
+  let gs := gsOf req
+  let starts : List Nat := (jarr req "starts").toList.map (fun j => j.getNat?.toOption.getD 0)
+  let cmds : List SearchCmd := (jarr req "cmds").toList.filterMap fun c =>
+    match c with
+    | .arr #[.str "search", .bool f, n] => some (.search f (n.getNat?.toOption.getD 1))
+    | .arr #[.str "next", n] => some (.next (n.getNat?.toOption.getD 1))
+    | .arr #[.str "prev", n] => some (.prev (n.getNat?.toOption.getD 1))
+    | _ => none
+  let (_, _, out) := cmds.foldl (fun (acc : Nat × SearchState × List Json) c =>
+    let (cur, st, out) := acc
+    let (cur', st') := searchStep gs starts cur st c
+    (cur', st', out ++ [Json.num cur'])) (jnat req "cursor", {}, [])
+  Json.mkObj [("cursors", Json.arr out.toArray)]
+
 def dispatch (req : Json) : Json :=
   match jstr req "op" with
   | "ping" => Json.mkObj [("pong", true)]
@@ -203,6 +221,7 @@ def dispatch (req : Json) : Json :=
   | "geometry" => opGeometry req
   | "field" => opField req
   | "undo_machine" => opUndoMachine req
+  | "search" => opSearch req
   | "global" => opGlobal req
   | op => Json.mkObj [("err", Json.str s!"unknown op {op}")]
 
